@@ -203,6 +203,9 @@ def run_real_scheduler(ctx, n_ens, workers, steps, seed, rng, image=None, weight
         # what a restart of this directory reads: the file this life wrote, else the file it was started from
         if os.path.exists(os.path.join(sim.tmp, "restart.toml")):
             rec["image"] = T.read_image(sim.tmp)
+            import tomli
+            with open(os.path.join(sim.tmp, "restart.toml"), "rb") as fh:
+                rec["restart_file"] = tomli.load(fh)          # the file as it is (restarted_from as the life wrote it)
         else:
             rec["image"] = copy.deepcopy(image) if image is not None else None
         rec["weights"] = {pn: v["weights"] for pn, v in st.traj_data.items()}
@@ -263,6 +266,41 @@ def judge(ctx, rec, label, workers, steps, final=True):
             ctx.fail("C17:more-jobs-than-workers", f"{nfut} futures at cstep {c}", rep)
 
 
+def setup_gate(restart_file, steps):
+    """what the REAL setup_config decides for a restart of this directory with `steps` (the user edits
+    simulation.steps in restart.toml and runs with -i restart.toml).  Returns ('refuses' | 'continues' |
+    'continues-then-<error>', restarted_from it set)."""
+    import shutil
+    import tempfile
+    import tomli_w
+    from infretis.setup import setup_config
+    cfg = copy.deepcopy(restart_file)
+    cfg["simulation"]["steps"] = steps
+    for ee in cfg["simulation"].get("ensemble_engines", []):
+        for name in ee:
+            cfg.setdefault(name, {"class": "turtlemd", "engine": "turtlemd"})
+    tmp = tempfile.mkdtemp(prefix="vp-c17g-", dir="/var/tmp")
+    cwd = os.getcwd()
+    os.chdir(tmp)
+    try:
+        for act in cfg["current"]["active"]:
+            os.makedirs(os.path.join(cfg["simulation"].get("load_dir", "trajs"), str(act)), exist_ok=True)
+            with open(os.path.join(cfg["simulation"].get("load_dir", "trajs"), str(act), "traj.txt"), "w") as fh:
+                fh.write("x")
+        with open("restart.toml", "wb") as fh:
+            tomli_w.dump(cfg, fh)
+        try:
+            out = setup_config("restart.toml")
+        except Exception as e:  # noqa: BLE001  raised after the stop rule (check_config …): the rule let it pass
+            return f"continues-then-{err_kind(e)}", None
+        if out is None:
+            return "refuses", None
+        return "continues", out["current"].get("restarted_from")
+    finally:
+        os.chdir(cwd)
+        shutil.rmtree(tmp, ignore_errors=True)
+
+
 def scenario(ctx, n_ens, workers, chain, seed, with_model, outs):
     """chain = [(steps, crash_after or None), …]: successive process lives on the same directory state"""
     label = f"n_ens={n_ens} workers={workers} chain={chain} seed={seed} ctxseed={ctx.seed}"
@@ -270,7 +308,27 @@ def scenario(ctx, n_ens, workers, chain, seed, with_model, outs):
     image = weights = None
     screen = rng.choice((0, 1, 1, 3, 4))      # output frequency of the run: must not matter for the restart file
     total = 0                                  # moves completed (results consumed) over all lives on this directory
+    rfile = None                               # restart.toml as the last life that wrote it left it
     for life, (steps, crash_after) in enumerate(chain):
+        if rfile is not None and image is not None:
+            # a restarted life starts only if the REAL setup_config lets it: "restarting with a larger step count
+            # continues from there", whatever restarted_from the previous lives left and however small the raise is
+            gate, rf = setup_gate(rfile, steps)
+            c_disk = rfile["current"]["cstep"]
+            ctx.hit(f"setup-gate:{gate.split('-then-')[0]}:"
+                    + ("raise<workers" if c_disk < steps < c_disk + workers else "raise>=workers" if steps > c_disk else "no-raise"))
+            rep = {"scenario": label, "ctxseed": ctx.seed}
+            if gate == "refuses":
+                if steps > c_disk:
+                    ctx.fail("C17:larger-step-count-refused",
+                             f"life {life}: restart.toml has cstep={c_disk}, restarted_from={rfile['current'].get('restarted_from')}, "
+                             f"workers={workers}; restarted with steps={steps}: setup_config returns None — no move runs, "
+                             f"{steps - c_disk} moves are missing", rep)
+                    break
+                ctx.hit("setup-gate:refused-no-step-left")
+                continue                         # legitimately refused: nothing runs, nothing is written
+            if gate == "continues" and rf != c_disk:
+                ctx.fail("C17:restarted-from-not-cstep", f"setup_config set restarted_from={rf}, file cstep={c_disk}", rep)
         rec = run_real_scheduler(ctx, n_ens, workers, steps, seed, rng, image=image, weights=weights,
                                  crash_after=crash_after, screen=screen)
         ctx.hit(f"screen={screen}")
@@ -300,6 +358,7 @@ def scenario(ctx, n_ens, workers, chain, seed, with_model, outs):
                 continue
             break
         image, weights = rec["image"], rec["weights"]
+        rfile = rec.get("restart_file") or rfile
     return label
 
 
@@ -382,6 +441,14 @@ def run(ctx):
                         pt = rng.randint(1, a + 3)
                         ch.append((a + 4, pt if kd == "step" else (kd, pt)))
                     plans.append((n_ens, w, ch + [(a + 4 + rng.randint(0, 3), None)]))
+    # finish a run, start it again unchanged (the no-op restart writes restarted_from == cstep), then raise the step
+    # count by d = 1 .. W+1: fewer than / exactly / more than the number of workers; every life passes the real setup_config
+    for w in (2, 3):
+        for n_ens in (w + 1, w + 2):
+            for s0 in ((w, w + 2) if ctx.quick else (w, w + 1, w + 2, w + 4)):
+                for d in range(1, w + 2):
+                    plans.append((n_ens, w, [(s0, None), (s0, None), (s0 + d, None)]))
+                plans.append((n_ens, w, [(s0, None), (s0, None), (s0, None), (s0 + 1, None)]))   # refused once, then raised
     # small scope, exhaustive in the death point: every wait and every unit of a short run
     for w in (1, 2):
         for steps in ((3, 4) if ctx.quick else (2, 3, 4, 5, 6)):
@@ -427,6 +494,9 @@ def replay(ctx, obj):
         return c17_sys.replay_sys(ctx, obj)
     r = obj.get("replay", {})
     if "steps" in r and "cstep" in r:
+        from props import c17_sched
+        if c17_sched.replay_setup(ctx, r):
+            return 1
         setup_config_rule(ctx)
         return 1 if ctx.fails else 0
     print("replay by re-running the scenario:", r.get("scenario"))
